@@ -107,7 +107,7 @@ func rawResponse(c *wireCase, body []byte) []byte {
 		ver = "HTTP/1.0"
 	}
 	fmt.Fprintf(&b, "%s %d %s\r\n", ver, c.Status, http.StatusText(c.Status))
-	b.WriteString("Cache-Control: max-age=100000\r\nDate: " + time.Now().UTC().Format(http.TimeFormat) + "\r\n")
+	b.WriteString("Etag: \"wire\"\r\nCache-Control: max-age=100000\r\nDate: " + time.Now().UTC().Format(http.TimeFormat) + "\r\n")
 	for _, h := range append(append([]hdr(nil), c.Headers...), hopHeaders(c.HopSet)...) {
 		fmt.Fprintf(&b, "%s: %s\r\n", h.K, h.V)
 	}
@@ -191,7 +191,7 @@ func (s *snapper) RoundTrip(req *http.Request) (*http.Response, error) {
 
 // pipeTransport is an http.Transport whose connections are net.Pipe ends
 // served with the raw script.
-func pipeTransport(script func() []byte) *http.Transport {
+func pipeTransport(script func(reqText string) []byte) *http.Transport {
 	return &http.Transport{
 		DisableKeepAlives:  true,
 		DisableCompression: true,
@@ -200,16 +200,18 @@ func pipeTransport(script func() []byte) *http.Transport {
 			go func() {
 				defer srv.Close()
 				br := bufio.NewReader(srv)
+				var reqText strings.Builder
 				for {
 					line, err := br.ReadString('\n')
 					if err != nil {
 						return
 					}
+					reqText.WriteString(line)
 					if line == "\r\n" {
 						break
 					}
 				}
-				srv.Write(script())
+				srv.Write(script(reqText.String()))
 			}()
 			return cli, nil
 		},
@@ -322,7 +324,14 @@ func runCase(t *testing.T, r *run.Runner, c *wireCase, idx int) {
 		url = "http://" + h2addr + "/x"
 		defer inner.(*http.Transport).CloseIdleConnections()
 	} else {
-		inner = pipeTransport(func() []byte { return rawResponse(c, body) })
+		inner = pipeTransport(func(reqText string) []byte {
+			if strings.Contains(strings.ToLower(reqText), "if-none-match:") {
+				// validation: a 304 that nominates hop-by-hop fields of its own and updates one field
+				return []byte("HTTP/1.1 304 Not Modified\r\nEtag: \"wire\"\r\nDate: " + time.Now().UTC().Format(http.TimeFormat) +
+					"\r\nCache-Control: max-age=100000\r\nConnection: X-Hop304\r\nX-Hop304: leak\r\nKeep-Alive: timeout=1\r\nX-New: from-304\r\n\r\n")
+			}
+			return rawResponse(c, body)
+		})
 	}
 	sn := &snapper{next: inner}
 	dir := ""
@@ -471,6 +480,41 @@ func runCase(t *testing.T, r *run.Runner, c *wireCase, idx int) {
 	}
 	if cl := resp2.Header.Get("Content-Length"); cl != "" && cl != strconv.Itoa(len(o.body)) {
 		r.Violation("content-length-wrong", sig, fmt.Sprintf("Content-Length %s on a stored response with %d body bytes", cl, len(o.body)), nil)
+	}
+	// 3. revalidation (HTTP/1.x scripts only): the 304's hop-by-hop fields are
+	// not merged, its end-to-end field is, the body stays exact - also on the
+	// next request served from the store
+	if c.Proto != "h2" {
+		for k, cc := range []string{"no-cache", ""} {
+			req, _ := http.NewRequest("GET", url, nil)
+			if cc != "" {
+				req.Header.Set("Cache-Control", cc)
+			}
+			resp, err := rt.RoundTrip(req)
+			if err != nil {
+				r.Violation("revalidation-failed", sig, fmt.Sprintf("request %d after the hit failed: %v", k+3, err), nil)
+				break
+			}
+			b, rerr := io.ReadAll(resp.Body)
+			resp.Body.Close()
+			r.AddEvaluations(1)
+			if k == 0 && len(sn.snaps) != 2 {
+				r.Count("revalidation_not_sent", 1)
+				break
+			}
+			if rerr != nil || !bytes.Equal(b, o.body) {
+				r.Violation("body-differs", sig+",after-304", fmt.Sprintf("body after a 304 differs from the origin's: %d vs %d bytes (read error %v)", len(b), len(o.body), rerr), nil)
+			}
+			for _, hk := range []string{"X-Hop304", "Keep-Alive", "Connection"} {
+				if v := resp.Header.Values(hk); len(v) > 0 {
+					r.Violation("hop-by-hop-replayed", sig+",after-304,field="+hopClass(hk), fmt.Sprintf("hop-by-hop field %s: %q of a 304 was merged into the stored response (request %d)", hk, v, k+3), nil)
+				}
+			}
+			if resp.Header.Get("X-New") != "from-304" {
+				r.Violation("header-differs", sig+",after-304,field=other", fmt.Sprintf("end-to-end field X-New of the 304 is missing on request %d", k+3), nil)
+			}
+			r.Count("requests_after_304", 1)
+		}
 	}
 	if r.WantSample() {
 		r.Sample(map[string]any{"case": map[string]any{"proto": c.Proto, "framing": c.Framing, "status": c.Status, "body_size": c.BodySize, "body_class": c.BodyClass, "n_headers": len(c.Headers), "backend": c.Backend, "hop_set": c.HopSet},
